@@ -58,16 +58,14 @@ def check_reports(sess):
         if phs is None:
             sess.fail("C16", "phases-report", "phases() returned None with phases defined")
         names = set(x[0] for x in phs["rows"])
-        want_names = set(n for n in m.order if m.kind(n) != "Rectifier")
+        want_names = set(m.order)
         if names != want_names:
             sess.fail("C16", "phases-lists-live", "phases() components %s" % sorted(names ^ want_names)[:6])
         order = list(m.sys_phases.keys())
         for n in m.order:
             k = m.kind(n)
-            if k == "Rectifier":
-                continue
             conf = m.phase_conf[n]
-            if k in ("RLoss", "VLoss") or not conf:
+            if k in ("RLoss", "VLoss", "Rectifier") or not conf:
                 want = ["N/A"]
             else:
                 want = [p for p in order if p in conf] or ["N/A"]
